@@ -78,21 +78,26 @@ func init() {
 		}
 		clean, _ := sched.Get("Clean block root to slot cache")
 		ct.SetEpoch(100)
-		// event handlers of one stream are sequential: one goroutine each for block and head events
+		// event handlers of one subscription are sequential: one goroutine per subscription
 		var wg sync.WaitGroup
-		wg.Add(2)
-		go func() {
-			defer wg.Done()
-			for i := 0; i < 300; i++ {
-				ev.Handlers["block"][0](&apiv1.Event{Topic: "block", Data: &apiv1.BlockEvent{Slot: phase0.Slot(i), Block: phase0.Root{byte(i)}}})
-			}
-		}()
-		go func() {
-			defer wg.Done()
-			for i := 0; i < 50; i++ {
-				ev.Handlers["head"][0](&apiv1.Event{Topic: "head", Data: &apiv1.HeadEvent{Slot: phase0.Slot(i), Block: phase0.Root{byte(i)}}})
-			}
-		}()
+		for _, h := range ev.Handlers["block"] {
+			wg.Add(1)
+			go func(h func(*apiv1.Event)) {
+				defer wg.Done()
+				for i := 0; i < 300; i++ {
+					h(&apiv1.Event{Topic: "block", Data: &apiv1.BlockEvent{Slot: phase0.Slot(i), Block: phase0.Root{byte(i)}}})
+				}
+			}(h)
+		}
+		for _, h := range ev.Handlers["head"] {
+			wg.Add(1)
+			go func(h func(*apiv1.Event)) {
+				defer wg.Done()
+				for i := 0; i < 50; i++ {
+					h(&apiv1.Event{Topic: "head", Data: &apiv1.HeadEvent{Slot: phase0.Slot(i), Block: phase0.Root{byte(i)}}})
+				}
+			}(h)
+		}
 		hammer(2, 200,
 			func(i int) { _, _ = svc.BlockRootToSlot(ctx, phase0.Root{byte(i)}) },
 			func(i int) { svc.SetBlockRootToSlot(phase0.Root{byte(i), 1}, phase0.Slot(i)) },
@@ -188,4 +193,3 @@ func init() {
 		)
 	}}
 }
-
